@@ -693,6 +693,13 @@ def oracle_frame(case, obs):
         if not rec["finite"]:
             infs = [(c["name"], r) for c in desc["cols"] if c["stype"] == "numerical" and c["name"] != desc["target"]
                     for r in rows if isinstance(c["cells"][r], str)]
+            num_post = (case["enc"].get("numerical") or {}).get("post")
+            if infs and num_post not in ("layernorm", "seq"):   # only normalising post-modules overflow
+                # the known finding needs a normalising post-module; without one the clean code stays finite
+                return dict(key="inf-cell-non-finite-output:no-post-module",
+                            what=f"batch {b}: an infinite numerical cell {infs[0]} gives a non-finite output although "
+                                 "no normalising post-module is configured (nan_to_num should have made it finite)",
+                            expected="a finite tensor", classes={k: (v["cls"], v["post"]) for k, v in case["enc"].items()})
             if infs:
                 return dict(key="inf-cell-non-finite-output",
                             what=f"batch {b}: an infinite numerical cell {infs[0]} is neither imputed nor treated as "
